@@ -151,6 +151,18 @@ def run(chk):
     n += 1
     chk.decide(ok, "orthogonal-complement-removed", fpj.qname, "after projecting on three evolution rows a component along another row survives",
                where=fpj.where, data={"witness": info}, how="PE + PIT F_p")
+    # several blocks in ONE call, each with its own list of flavours (sub-grids of a member with different flavour content): every block
+    # is projected by its own pids, independently of its neighbours
+    b1, b2, b3 = block(scr, "p"), block([5, -5, 21, 2, 1, -2], "q"), block(full_scr, "r")
+    try:
+        got = call([b1, b2, b3], [e1, e2])
+        for bi, (b, g) in enumerate(zip((b1, b2, b3), got)):
+            n += 1
+            same(g, reference(b, [e1, e2]), "projection-formula", f"multi-block,{bi}",
+                 f"three blocks with different flavour lists in one call: block {bi + 1} (pids {b['pids'][:6]}...) is not projected by its own list of "
+                 f"flavours (the result of a block depends on the blocks before it)")
+    except (PERaise, ValueError) as e:
+        chk.fail("projection-formula", fpj.qname, f"three blocks in one call: raises {e}", where=fpj.where, instance="multi-block")
     # empty block is skipped
     eb = {"pids": [], "data": Arr.from_nested([]).reshape(0, 0) if hasattr(Arr, "reshape") else Arr.from_nested([]), "Q2grid": []}
     # (6) representation helpers
